@@ -479,7 +479,7 @@ func generate(R *core.Rand, thorough bool, emit func(class string, nontrivial bo
 				continue
 			}
 			for _, a := range m.args {
-				// quick: every (variant, mutator, arg) in one or two different contexts, cache mode by the seed chosen by the seed; thorough: all contexts x both cache modes
+				// quick: every (variant, mutator, arg) in two or three different contexts, cache mode by the seed chosen by the seed; thorough: all contexts x both cache modes
 				var picks []recipe
 				if thorough {
 					for _, c := range ctxs {
@@ -488,11 +488,15 @@ func generate(R *core.Rand, thorough bool, emit func(class string, nontrivial bo
 						}
 					}
 				} else {
+					// two different contexts, a third one half of the time
 					k := R.Intn(len(ctxs))
-					picks = append(picks, recipe{vi, ctxs[k], R.Intn(2), m.name, a})
-					if R.Chance(2, 3) {
-						k2 := (k + 1 + R.Intn(len(ctxs)-1)) % len(ctxs)
-						picks = append(picks, recipe{vi, ctxs[k2], R.Intn(2), m.name, a})
+					k2 := (k + 1 + R.Intn(len(ctxs)-1)) % len(ctxs)
+					picks = append(picks, recipe{vi, ctxs[k], R.Intn(2), m.name, a}, recipe{vi, ctxs[k2], R.Intn(2), m.name, a})
+					if R.Chance(1, 2) {
+						k3 := R.Intn(len(ctxs))
+						if k3 != k && k3 != k2 {
+							picks = append(picks, recipe{vi, ctxs[k3], R.Intn(2), m.name, a})
+						}
 					}
 				}
 				for _, r := range picks {
@@ -517,7 +521,15 @@ func generate(R *core.Rand, thorough bool, emit func(class string, nontrivial bo
 // ---------------------------------------------------------------- Facts (T2)
 
 func (P) Facts() []core.Fact {
+	c := blockchain.VerifConstsC01()
 	return []core.Fact{
+		{Name: "baseSubsidy", Value: c["baseSubsidy"]},
+		{Name: "medianTimeBlocks", Value: c["medianTimeBlocks"]},
+		{Name: "maxTimeWarpSecs", Value: c["maxTimeWarpSecs"]},
+		{Name: "serializedHeightVersion", Value: c["serializedHeightVersion"]},
+		{Name: "bip34ReenableBIP30Height", Value: c["bip34ReenableBIP30Height"]},
+		{Name: "coinbaseWitnessDataLen", Value: blockchain.CoinbaseWitnessDataLen},
+		{Name: "coinbaseWitnessPkScriptLength", Value: blockchain.CoinbaseWitnessPkScriptLength},
 		{Name: "maxBlockBaseSize", Value: blockchain.MaxBlockBaseSize},
 		{Name: "maxBlockWeight", Value: blockchain.MaxBlockWeight},
 		{Name: "maxBlockSigOpsCost", Value: blockchain.MaxBlockSigOpsCost},
